@@ -177,6 +177,7 @@ P = {
     "C15.i": "releasing the per-object records, evaluated on a sample (records {1,2,9}, ids [1,2] recorded by this parser): exactly the parser's own records are removed, finished or not, and no others",
     "C15.j": "by evaluation of _cached_model_ids / _call_model_processors on a meta-model object with an interpreted global repository: when a model processor fails exactly the models this load added are removed and the error propagates, the models cached before stay (same objects); nothing is removed when no processor fails",
     "C15.k": 'by evaluation of the driver parse_tree_to_objgraph (recording stand-ins for the tree walkers, resolver class, loaders and cleanup functions; _start/_end_model_construction interpreted) on 9 load scenarios: a failure in resolution, in an object processor or in a model loader removes the models of this load from the repositories, abandons their user objects, removes the construction marks and re-raises the same error; no processor runs after a resolution failure, nothing is resolved after a loader failure',
+    "C15.m": 'by evaluation of _call_model_processors: a model that the failure handler removes from the shared repository while it is still under construction (a model loaded on behalf of another one) has the user-class instrumentation of its parser restored and its collected attributes released there and then - the enclosing load finds the models to clean up through the repository; succeeding processors touch no parser (found F36)',
     "C14.i": "restore is idempotent per parser: the 'replaced' flag is cleared before any nesting counter is decremented, on every path and unconditionally (a repeated restore for the same parser does nothing)",
     "C14.h": "postponed initialisation: the per-object record is removed from _tx_obj_attrs before the collected attributes are applied to the object and before __init__ runs (the instrumented __setattr__ routes by the record's presence)",
     "C14.a": "obligation O1: attribute-method instrumentation of user classes is restored on every exit of every load for every model under construction; no release without acquire",
